@@ -66,7 +66,7 @@ class Gen:
 
     def element(self, arr=None):
         r = self.rng
-        arr = arr or r.choice(list(R.ARRAYS))
+        arr = arr or r.choice(R.GEN_ARRAYS)
         return f"{arr}(" + ",".join(self.sym(r.randint(lo, hi)) for lo, hi in R.ARRAYS[arr]) + ")"
 
     def scalar_leaf(self, elements=True):
@@ -110,7 +110,7 @@ class Gen:
             if not first and x < 0.3:
                 return self.scalar_leaf(elements=(flavour != "safe" or lhs is None))
             for _ in range(20):
-                arr = r.choice(list(R.ARRAYS))
+                arr = r.choice(R.GEN_ARRAYS)
                 s_st = st
                 if flavour == "stride" and r.random() < 0.5:
                     s_st = r.choice([s for s in (1, 2, -1) if s != st])
@@ -141,7 +141,7 @@ class Gen:
     def lhs_section(self):
         r = self.rng
         for _ in range(50):
-            arr = r.choice(list(R.ARRAYS))
+            arr = r.choice(R.GEN_ARRAYS)
             cnt = r.choice([0, 1, 2, 3, 3, 4, 4, 5])
             st = r.choice([1, 1, 1, 1, 2, -1])
             dims = R.ARRAYS[arr]
@@ -255,7 +255,7 @@ def case_aa_elem(g):
 def case_aa2(g):
     """rank-2 section assignment (two ranges -> loop nest): safe / overlapping / differently strided / element reads"""
     r = g.rng
-    mats = ["m", "q", "p2"]
+    mats = ["m", "q", "p2", "e2"]
     arr = r.choice(mats)
     flavour = r.choice(["safe", "safe", "safe", "overlap", "stride", "elem", "whole"])
 
@@ -304,6 +304,72 @@ def case_aa2(g):
     rhs = r.choice([f"{a} + {b}", f"{a} * {b} - x", f"max({a}, {b})", f"abs({a}) + {b} * 2.0", a])
     return {"kind": "aa", "flavour": "rank2-" + flavour, "stmts": [f"{lhs} = {rhs}"], "trans": "ArrayAssignment2LoopsTrans",
             "target": ["assign"]}
+
+
+def case_aa_cross(g):
+    """sections of higher-rank arrays on the rhs whose range sits in a DIFFERENT dimension position than the
+    lhs range, the other dimensions being fixed by scalar subscripts (`v(:) = e2(k,:)`, `r(:) = t3(1,3,:)`,
+    `m(:,:) = t3(2,:,:)`): the index offset has to come from the declared lower bound of the right dimension.
+    Full ranges (`:` / explicit declared bounds) and partial ranges; the rank-3 terms are gfortran-only."""
+    r = g.rng
+    full = lambda a, d: r.choice([":", ":", f"{R.ARRAYS[a][d][0]}:{R.ARRAYS[a][d][1]}"])
+    fixed = lambda a, d: g.sym(r.randint(*R.ARRAYS[a][d]))
+    if r.random() < 0.25:
+        # rank-2 lhs, rank-3 rhs
+        lhs = r.choice(["m(:,:)", "p2(:,:)", "q(:,:)", "e2(:,:)", "m", "e2"])
+        lname = lhs.split("(")[0]
+        t = f"t3({fixed('t3', 0)},{full('t3', 1)},{full('t3', 2)})"
+        o = r.choice([x for x in ["m", "q", "p2", "e2"] if x != lname])
+        rhs = r.choice([t, f"{t} * 2.0 + {lhs}", f"{t} + {o}", f"max({t}, {o}(:,:))"])
+        return {"kind": "aa", "flavour": "cross-rank3", "stmts": [f"{lhs} = {rhs}"], "trans": "ArrayAssignment2LoopsTrans",
+                "target": ["assign"]}
+    larr = r.choice(["v", "r", "w", "u"])
+    partial = r.random() < 0.3
+    if partial:
+        lo, hi = R.ARRAYS[larr][0]
+        cnt = r.choice([2, 3])
+        s0 = r.randint(lo, hi - cnt + 1)
+        lhs = f"{larr}({g.sym(s0)}:{g.sym(s0 + cnt - 1)})"
+    else:
+        cnt = 4
+        lhs = f"{larr}({full(larr, 0)})" if r.random() < 0.8 else larr
+
+    def term():
+        a = r.choice(["m", "q", "p2", "e2", "e2", "q", "t3"])
+        dims = R.ARRAYS[a]
+        if a == "t3":
+            d = r.choice([1, 2])            # dimensions with 4 elements
+        else:
+            d = r.randrange(2)
+        idx = []
+        for p in range(len(dims)):
+            if p != d:
+                idx.append(fixed(a, p))
+            elif partial:
+                lo, hi = dims[p]
+                s1 = r.randint(lo, hi - cnt + 1)
+                idx.append(f"{g.sym(s1)}:{g.sym(s1 + cnt - 1)}")
+            else:
+                idx.append(full(a, p))
+        return f"{a}(" + ",".join(idx) + ")"
+
+    t1, t2 = term(), term()
+    rhs = r.choice([t1, f"2.0 * {t1} + {lhs}", f"{t1} + {t2}", f"max({t1}, {t2}) - {r.choice(R.SCALARS)}", f"abs({t1}) * {t2}"])
+    return {"kind": "aa", "flavour": "cross-partial" if partial else "cross-full", "stmts": [f"{lhs} = {rhs}"],
+            "trans": "ArrayAssignment2LoopsTrans", "target": ["assign"]}
+
+
+def case_red_cross(g):
+    """reductions over cross-dimension sections: `x = sum(v(:) * e2(k,:))`, `x = maxval(t3(1,3,:) + r)`"""
+    r = g.rng
+    c = case_aa_cross(g)
+    while c["flavour"] == "cross-rank3":
+        c = case_aa_cross(g)
+    lhs, rhs = c["stmts"][0].split(" = ", 1)
+    kind = r.choice(["sum", "maxval", "minval"])
+    expr = r.choice([f"{lhs} * ({rhs})", f"{lhs} + ({rhs})"]) if "(" in lhs else rhs
+    return {"kind": "red", "flavour": "cross", "stmts": [f"{r.choice(R.SCALARS)} = {kind}({expr})"],
+            "trans": kind.capitalize() + "2LoopTrans", "target": ["intrinsic", kind.upper(), 0]}
 
 
 def scalar_target(g):
@@ -792,7 +858,7 @@ def run(chk):
     findings = common.known_findings("C06")
     rng = chk.rng
     nb, bs = {"quick": (8, 24), "thorough": (100, 24)}[chk.tier]
-    gens = [case_aa] * 4 + [case_aa_elem] * 3 + [case_aa2] * 3 + [case_intr] * 4 + [case_red] * 5 + [case_red_self] * 3 + [case_dot] * 2 + [case_matmul] * 2 + [case_misc]
+    gens = [case_aa] * 4 + [case_aa_elem] * 3 + [case_aa2] * 3 + [case_aa_cross] * 3 + [case_red_cross] + [case_intr] * 4 + [case_red] * 5 + [case_red_self] * 3 + [case_dot] * 2 + [case_matmul] * 2 + [case_misc]
     cparams = R.gen_params(__import__("random").Random(7))
     cparams["n"], cparams["k"] = 4, 2
     batches = [([dict(c) for c in CORPUS], cparams)]
